@@ -1,6 +1,6 @@
 (* C18 — the search step evaluates the acquisition-optimal candidate, once.
    Only statements here; every proof is in Proofs/ESSelectProofs.v.  Model: Model/ESSelect.v
-   (es_search.py l.44-69 and l.134-214, search_hedge.py l.58-67, bads.py l.1630-1655).
+   (es_search.py l.44-69 and l.134-215, search_hedge.py l.58-67, bads.py l.1630-1655).
    Oracle inputs, universally quantified: the survivors of every generation with their acquisition
    values, numbers or NaN (any number of generations, any population sizes, empty generations anywhere), the ceil'ed weight vector w0, the
    positive numbers e_i = exp(beta (g_i - max g)) of any score history, the uniform draw. *)
@@ -184,7 +184,7 @@ Proof. exact es_example_ok. Qed.
 Example C18_es_example_all_filtered : es_run nat 2 [[]; []] = ESEmpty.
 Proof. exact es_example_all_filtered. Qed.
 
-(* a later generation without survivors, then (code as it is) a population of NaN candidates *)
+(* a later generation without survivors; then a population whose acquisition values are NaN *)
 Example C18_es_example_later_generation_empty :
   es_run nat 2 [[(1%nat, Some (3#1)); (2%nat, Some (1#1))]; []] = ESPoint 2%nat (Some (1#1)) /\
   es_run nat 2 [[(1%nat, Some (3#1)); (2%nat, Some (1#1))]; []; [(3%nat, None); (4%nat, None)]] = ESPoint 2%nat (Some (1#1)).
